@@ -357,7 +357,9 @@ PROPS["C15"] = dict(
                "every run (tools/tr_kern.py, C15_kernels_are_the_source); and the exact images after a swap and after both cuts "
                "(C15_swap_is_other_diagonal, C15_cut_outer_topology, C15_cut_inner_topology, Map2/SwapTopo.v: the two triangles "
                "l->d->a and r->b->c after a swap, the two resp. four triangles after a cut with their gluing, every other image "
-               "untouched -- so triangles stay triangles and the neighbourhood keeps its adjacency); collapse: per observation",
+               "untouched -- so triangles stay triangles and the neighbourhood keeps its adjacency); the interior collapse to the "
+               "midpoint removes the six darts of the two triangles and glues their outer neighbours pairwise, nothing else "
+               "changes (C15_collapse_midpoint_topology, images and removal flags); other collapse variants: per observation",
     technique="Coq model of the kernels + correspondence + extracted Coq specification (exact arithmetic) as per-run validator",
     families=[
         Family("kern-remesh", "core2", r_kern("remesh", 1200, 20000, 8), 1, [(9, "remesh_spec", REM_CLASSES)]),
